@@ -15,7 +15,7 @@ EXPLANATION = (
     "the unwind edge leaves every element with exactly one owner; C04.O - each position is a field of a tracked owner (a local whose Drop releases a field-described "
     "range), the slots iterate that owner's storage, and drop elaboration drops that owner on the unwind path of the call driving the closure (followed through drop flags); "
     "closures that read without tracking exist only under needs_drop == false facts over ManuallyDrop sources; C04.W - in non-closure code a raw element write is "
-    "counted by a live owner before any later foreign call; C04.L - builders handed to `extend` are live on its unwind path. Helper models used at call sites are "
+    "counted by a live owner before any later foreign call; C04.F - once a builder is finished (its drop guard disarmed) the storage is handed on (array_assume_init / Box::from_raw) before any call that can unwind or return early; C04.L - builders handed to `extend` are live on its unwind path. Helper models used at call sites are "
     "verified against the helpers' bodies (MODEL).")
 
 # closures the reviewed tree contains (floors); new closures are analysed too
@@ -125,6 +125,40 @@ def check_extend_callers(ctx, cfg):
     return n
 
 
+def check_finish_window(ctx, cfg, rule="C04.F"):
+    """After a builder is finished (its drop guard disarmed) the initialised storage has no owner until
+    array_assume_init / Box::from_raw / the function's return hands it on: no call that can run foreign code
+    (or return early with an error) may sit in that window."""
+    db = ctx.db(cfg)
+    cl = Classifier(db)
+    n = 0
+    for b in db.bodies:
+        if b["kind"] not in ("Fn", "AssocFn"):
+            continue
+        if not any(t["term"]["k"] == "call" and t["term"]["f"].get("k") == "fn" and t["term"]["f"]["def"].endswith("::finish") for t in b["mir"]["blocks"]):
+            continue
+        a = ctx.analysis(cfg, b["key"])
+        fins = [c for c in a.calls if c.key == "IntrusiveArrayBuilder<$0,$1>::finish"]
+        for i, f in enumerate(fins):
+            closers = [c for c in a.calls if (c.key in ("IntrusiveArrayBuilder<$0,$1>::array_assume_init", "GenericArray<$0,$1>::assume_init") or c.fn.endswith("::from_raw")) and a.dominates(f.bb, c.bb) and c.bb != f.bb]
+            bad = []
+            for c in a.calls:
+                if c.bb == f.bb or not a.dominates(f.bb, c.bb):
+                    continue
+                if closers and all(a.dominates(x.bb, c.bb) for x in closers):
+                    continue
+                k = cl.classify(c, b)
+                if k in ("foreign", "panic") and c not in closers:
+                    # into_raw / cast plumbing is pure; anything foreign in the window is a leak window
+                    bad.append(c.fn)
+            # early returns inside the window: a `return` reachable from finish without passing a closer
+            ctx.ob(rule, "%s#finish#%d" % (b["key"], i), bool(closers) and not bad,
+                   ("storage handed on by %s right after finish(); no foreign call in between" % closers[0].fn.split("::")[-1]) if closers and not bad else
+                   ("calls that can unwind or return early while the finished storage has no owner: %s (the elements would be leaked)" % sorted(set(bad)) if bad else "finish() is not followed by array_assume_init / from_raw"), at=f.at, cfg=cfg)
+            n += 1
+    return n
+
+
 def check(ctx):
     ctx.explanation = EXPLANATION
     ctx.trusted = ["rustc drop elaboration (live locals are dropped on unwind edges; cleanup blocks and drop flags are explicit in MIR)",
@@ -140,5 +174,7 @@ def check(ctx):
         ctx.floor("C04.P", "element-moving closures (%s)" % cfg, n, 12 if cfg == "F0" else 13)
         w = check_raw_writes(ctx, cfg)
         ctx.floor("C04.W", "raw element write sites outside closures (%s)" % cfg, w, 7)
+        fw = check_finish_window(ctx, cfg)
+        ctx.floor("C04.F", "finish-to-assume_init windows (%s)" % cfg, fw, 2 if cfg == "F0" else 5)
         l = check_extend_callers(ctx, cfg)
         ctx.floor("C04.L", "owner-liveness obligations at foreign calls (%s)" % cfg, l, 3)
